@@ -14,7 +14,8 @@ RULE = ("Hypothesis draws (shipped model, parameter vector strictly inside the b
         "sampling linear/jittered/quadratic with 60-1500 points per segment, segment approach/retract, "
         "weighting distance 0..5e-6, minimizer leastsq/nelder, noise level 0 or 1e-4..3e-2 of the force "
         "range, initial guess inside the basin: modulus within a factor 2, contact point within 5 % of the "
-        "depth, baseline within 5 % of the force range). non-trivial = >= 20 in-contact points and the guess "
+        "depth, baseline within 5 % of the force range; optionally a prior fit on the same object whose request differs in "
+        "one respect: parameter bounds / vary flag / expression, weighting or range). non-trivial = >= 20 in-contact points and the guess "
         "off truth by > 1 % in E and > 0.5 % of the depth in contact point; distinct = distinct case record")
 TOL = {"leastsq": 1e-7, "nelder": 2e-3}
 #: noise amplification constants: error <= C * sigma / sqrt(n_contact) (in natural units)
@@ -49,7 +50,9 @@ def st_case(draw):
            "method": draw(st.sampled_from(["leastsq", "leastsq", "nelder"])),
            "e_factor": 10 ** (draw(sgn) * draw(st.floats(0.0, 0.3))),
            "cp_off": draw(sgn) * draw(st.floats(0.0, 0.05)),
-           "bl_off": draw(sgn) * draw(st.floats(0.0, 0.05))}
+           "bl_off": draw(sgn) * draw(st.floats(0.0, 0.05)),
+           # a different fit performed on the same object first: the measured fit must not see its leftovers
+           "prior": draw(st.sampled_from([None, None, "bounds", "vary", "weight", "range", "expr"]))}
     return {"curve": curve, "cfg": cfg}
 
 
@@ -69,8 +72,34 @@ def measure(case):
     curve, cfg = case["curve"], case["cfg"]
     idnt = synth.build(curve)
     pi = fitgen.initial_from_truth(curve, e_factor=cfg["e_factor"], cp_off=cfg["cp_off"], bl_off=cfg["bl_off"])
-    idnt.fit_model(model_key=curve["model"], params_initial=pi, segment=cfg["segment"],
-                   weight_cp=cfg["weight_cp"], method=cfg["method"], x_axis="tip position", y_axis="force")
+    kw = dict(model_key=curve["model"], segment=cfg["segment"], weight_cp=cfg["weight_cp"], method=cfg["method"],
+              x_axis="tip position", y_axis="force")
+    prior = cfg.get("prior")
+    if prior:
+        # same values, but the prior request differs in exactly one respect (bounds / vary flag / expression of
+        # the initial parameters, weighting, range); its result is wrong on purpose and must be replaced
+        p0 = fitgen.initial_from_truth(curve, e_factor=cfg["e_factor"], cp_off=cfg["cp_off"], bl_off=cfg["bl_off"])
+        kw0 = dict(kw)
+        cp0 = p0["contact_point"].value
+        if prior == "bounds":
+            p0["contact_point"].set(min=cp0 - 0.01 * curve["depth"], max=cp0 + 0.01 * curve["depth"])
+            ek = refmodels.EKEY[curve["model"]]
+            p0[ek].set(min=p0[ek].value * 0.999, max=p0[ek].value * 1.001)
+        elif prior == "vary":
+            p0["contact_point"].set(vary=False)
+        elif prior == "expr":
+            p0["baseline"].set(expr="0*contact_point + %r" % float(p0["baseline"].value))
+        elif prior == "weight":
+            kw0["weight_cp"] = 3e-7 if cfg["weight_cp"] != 3e-7 else 0
+        elif prior == "range":
+            kw0["range_x"] = [curve["params"]["contact_point"] - 0.4 * curve["depth"],
+                              curve["params"]["contact_point"] + 0.5 * curve["z0"]]
+            kw["range_x"] = [0, 0]
+        try:
+            idnt.fit_model(params_initial=p0, **kw0)
+        except BaseException:  # noqa: the prior fit is only history
+            pass
+    idnt.fit_model(params_initial=pi, **kw)
     fp = idnt.fit_properties
     a = synth.arrays(curve)
     t = curve["params"]
@@ -95,7 +124,7 @@ def check_case(case, ctx):
     ncont = int(np.sum(seg & (a["tip"] < curve["params"]["contact_point"])))
     off = abs(np.log10(cfg["e_factor"])) > np.log10(1.01) and abs(cfg["cp_off"]) > 0.005
     s = sensitivity(curve)
-    classes = [curve["model"], cfg["method"], f"segment{cfg['segment']}",
+    classes = [curve["model"], cfg["method"], f"segment{cfg['segment']}", "prior_" + str(cfg.get("prior")),
                "noisy" if curve["noise"] else "noise_free", "weighted" if cfg["weight_cp"] else "unweighted"]
     if s < 0.05:
         classes.append("weakly_identifiable")
